@@ -1,6 +1,7 @@
 """Rule framework: obligations, violations, reports, evidence, known findings (DESIGN §3.4/3.5)."""
 import hashlib
 import json
+import re
 import os
 import sys
 import time
@@ -175,6 +176,18 @@ def run_rules(pid, tier, progs, extra=None, only=None):
     return ctx
 
 
+def decided_clauses(pid):
+    """the hand-written clause list of the property + one line (the rule's docstring) for every rule added later"""
+    P = PROPERTIES[pid]
+    out = list(P["decided"])
+    txt = " ".join(out)
+    for r in P["rules"]:
+        if not re.search(r"\b%s\b" % re.escape(r.rid), txt):
+            d = " ".join((r.fn.__doc__ or "").split())
+            out.append("%s %s" % (r.rid, d or "(see rules source)"))
+    return out
+
+
 def write_report(pid, ob):
     d = os.path.join(REPORT_DIR, pid)
     os.makedirs(d, exist_ok=True)
@@ -240,7 +253,7 @@ def write_evidence(pid, tier, ctx, wall, n_viol, thorough_info=None):
                         "executed. Each obligation is one instance of a structural rule (guard / surface / pass-through / "
                         "error-discipline / flow / table) that is a necessary condition of property %s. Decided clauses: %s. "
                         "NOT decided by this check (runtime-valued clauses): %s" % (
-                            pid, "; ".join(P["decided"]), "; ".join(P["not_decided"]))),
+                            pid, "; ".join(decided_clauses(pid)), "; ".join(P["not_decided"]))),
         "obligations": len(obs),
         "discharged": n_ok,
         "unverified_shape": n_unv,
@@ -258,7 +271,7 @@ def write_evidence(pid, tier, ctx, wall, n_viol, thorough_info=None):
         "trusted_base": ["rustc nightly MIR construction and type resolution", "external-API classification tables in rules/tables.py",
                          "cargo +nightly check covers the unix build only (cfg(windows) code is out of scope)"],
         "exhaustive": True,
-        "decided": P["decided"],
+        "decided": decided_clauses(pid),
         "not_decided": P["not_decided"],
     }
     if thorough_info:
